@@ -181,6 +181,7 @@ type Call struct {
 	Err      error
 	ErrText  string
 	Gets     []getResult // async Get results / correctable snapshots
+	getsStarted int
 	QFInv    []*QFInvocation
 	qfBusy   bool
 	qfMu     sync.Mutex
@@ -188,6 +189,7 @@ type Call struct {
 	IsProbe   bool
 	nodeSrv   map[uint32]int
 	Observed []Observation
+	watchStarted []int
 }
 
 type getResult struct {
